@@ -490,22 +490,66 @@ def _size_arms(ctx, f, loop, pv):
         body = eliminate_continues([_copy.deepcopy(st) for st in body])
         if body is None:
             raise AnalysisError(f"{f.site()}: the per-plate loop uses `continue` in a form that is not an if / else chain")
+    def push_tail(stmts):
+        """[.., if c: A else: B, T1, T2]  ->  [.., if c: A; T1; T2 else: B; T1; T2]   (straight-line tail without control flow), so that a
+        shared accumulation after the comparison chain is read per size class"""
+        stmts = list(stmts)
+        for i, st in enumerate(stmts):
+            if isinstance(st, ast.If):
+                tail = stmts[i + 1:]
+                st = _copy.copy(st)
+                if tail and all(isinstance(t, (ast.Assign, ast.AugAssign, ast.Expr)) for t in tail):
+                    st.body = push_tail(list(st.body) + [_copy.deepcopy(t) for t in tail])
+                    st.orelse = push_tail(list(st.orelse) + [_copy.deepcopy(t) for t in tail])
+                    return stmts[:i] + [st]
+                st.body, st.orelse = push_tail(st.body), push_tail(st.orelse)
+                stmts[i] = st
+        return stmts
+    body = push_tail(body)
     pre = [st for st in body if isinstance(st, ast.Assign)]
     rest = [st for st in body if not isinstance(st, ast.Assign)]
     n = rest[0] if len(rest) == 1 else None
     if not isinstance(n, ast.If):
         raise AnalysisError(f"{f.site()}: the per-plate loop body is not a single size comparison chain")
     penv = {st.targets[0].id: st.value for st in pre if isinstance(st.targets[0], ast.Name)}
+
+    def pure_assign(st):
+        return isinstance(st, ast.Assign) and len(st.targets) == 1 and isinstance(st.targets[0], ast.Name) \
+            and all((call_name(c) or "").startswith("np.") for c in calls(st.value))
+
+    def close_defs(stmts):
+        """a name bound twice in one arm (`idx = rows; idx = rng.choice(idx, k)`): every binding's value is written in terms of the
+        names that are live before the arm, so that `the last binding` describes the value without referring to itself"""
+        env, out = {}, []
+        for st in stmts:
+            if isinstance(st, ast.Assign) and len(st.targets) == 1 and isinstance(st.targets[0], ast.Name):
+                nm = st.targets[0].id
+                if nm in names_in(st.value) and nm not in env:
+                    out.append(st)                      # an accumulator carried from before the arm
+                    continue
+                st = _copy.copy(st)
+                st.value = inline(st.value, env)
+                env[nm] = st.value
+            out.append(st)
+        return out
     arms = []
+    lead = []
     while isinstance(n, ast.If):
-        arms.append((n.test, n.body))
+        t_ = inline(n.test, {a.targets[0].id: a.value for a in lead}) if lead else n.test
+        arms.append((t_, close_defs([_copy.deepcopy(a) for a in lead] + list(n.body))))
         if len(n.orelse) == 1 and isinstance(n.orelse[0], ast.If):
             n = n.orelse[0]
         elif not n.orelse:
             n = None
+        elif isinstance(n.orelse[-1], ast.If) and all(pure_assign(a) for a in n.orelse[:-1]) and len({a.targets[0].id for a in n.orelse[:-1]}) == len(n.orelse) - 1:
+            # else: [pure assignments.., if ..]: the assignments belong to every arm of the inner comparison
+            lead = lead + list(n.orelse[:-1])
+            n = n.orelse[-1]
         else:
-            # an else arm that is itself [assignments..., If] continues the chain only if it starts with the If
-            n = ("else", n.orelse)
+            n = ("else", close_defs([_copy.deepcopy(a) for a in lead] + list(n.orelse)))
+    if n is None and lead and arms:
+        # the inner comparison has no else: the remaining size class runs the leading assignments only - not a contribution
+        pass
     return arms, (n if isinstance(n, tuple) else None), penv
 
 
@@ -514,8 +558,19 @@ def _contribution(ctx, f, S, pv, stmts, penv, acc_masks):
     out = []
     env = dict(penv)
     for st in stmts:
-        if isinstance(st, ast.Assign) and len(st.targets) == 1 and isinstance(st.targets[0], ast.Name):
+        if isinstance(st, ast.Assign) and len(st.targets) == 1 and isinstance(st.targets[0], ast.Name) and st.targets[0].id not in acc_masks:
             env[st.targets[0].id] = st.value
+    fenv_ = {k: v for k, v in single_defs(f.node).items() if k not in acc_masks and k not in (S, pv)}
+
+    def rows_of_mask(m):
+        """np.isin(np.arange(S.size), IDX): the mask of the rows IDX"""
+        if isinstance(m, ast.Attribute) and m.attr == "selection_vector" and isinstance(m.value, ast.Call) and U(m.value.func) in ("Plate", "ScreenSubset") \
+                and len(m.value.args) == 2 and U(m.value.args[0]) == S:
+            m = m.value.args[1]                          # the selection of a view built on the spot is the mask it was built from
+        m2 = inline(m, fenv_)
+        if isinstance(m2, ast.Call) and U(m2.func) == "np.isin" and len(m2.args) == 2 and U(m2.args[0]).replace(" ", "") == f"np.arange({S}.size)":
+            return m.args[1] if isinstance(m, ast.Call) and len(m.args) == 2 else m2.args[1]
+        return None
     for st in stmts:
         for c in calls(st):
             if attr_tail(c) == "append" and len(c.args) == 1:
@@ -538,12 +593,20 @@ def _contribution(ctx, f, S, pv, stmts, penv, acc_masks):
                     out.append(("other", v))
         if isinstance(st, ast.AugAssign) and isinstance(st.op, ast.BitOr) and U(st.target) in acc_masks:
             v = inline(st.value, env)
-            out.append(("whole", None) if U(v) == f"{pv}.selection_vector" else ("mask", v))
+            rw = rows_of_mask(v)
+            out.append(("whole", None) if U(v) == f"{pv}.selection_vector" else (("rows", rw) if rw is not None else ("mask", v)))
         if isinstance(st, ast.Assign) and len(st.targets) == 1 and U(st.targets[0]) in acc_masks and isinstance(st.value, ast.BinOp) and isinstance(st.value.op, ast.BitOr):
             sides = [U(inline(x, env)) for x in (st.value.left, st.value.right)]
             if U(st.targets[0]) in sides:
                 other = [x for x in sides if x != U(st.targets[0])]
-                out.append(("whole", None) if other == [f"{pv}.selection_vector"] else ("mask", st.value))
+                oth = [inline(x, env) for x in (st.value.left, st.value.right) if U(inline(x, env)) != U(st.targets[0])]
+                rw = rows_of_mask(oth[0]) if len(oth) == 1 else None
+                if other == [f"{pv}.selection_vector"]:
+                    out.append(("whole", None))
+                elif rw is not None:
+                    out.append(("rows", rw))
+                else:
+                    out.append(("mask", st.value))
         if isinstance(st, ast.Assign) and len(st.targets) == 1 and isinstance(st.targets[0], ast.Subscript) and U(st.targets[0].value) in acc_masks:
             if isinstance(st.value, ast.Constant) and st.value.value is True:
                 ix = inline(st.targets[0].slice, env)
@@ -607,7 +670,7 @@ def r4(ctx):
         ctx.check("R4", f"{f.site()}::drop-small-keep-equal", drop_ok and keep_ok, "smaller plates are dropped, equal plates kept whole",
                   "a smaller plate is kept or an equal plate is not kept as is")
         gt = ast.Module(body=ops["gt"], type_ignores=[])
-        ch = [c for c in calls(gt, tail="choice")]
+        ch = list({U(c): c for c in calls(gt, tail="choice")}.values())     # one draw, possibly read through several locals
         if not ch:
             helpers = [c for c in calls(gt) if isinstance(c.func, ast.Name) and ctx.R.chase(f.mod, c.func.id) in ctx.R.funcs]
             if helpers:
